@@ -269,6 +269,15 @@ mod train {
         TrainerConfig::verif_rewrite(rewrite_def, section, features)
     }
 
+    /// Like [`rewrite`], for many feature lists with one parse of the rules.
+    pub fn rewrite_many(
+        rewrite_def: &str,
+        section: &str,
+        feature_lists: &[Vec<String>],
+    ) -> Result<Vec<Option<Vec<String>>>> {
+        TrainerConfig::verif_rewrite_many(rewrite_def, section, feature_lists)
+    }
+
     /// Result of expanding templates over feature rows.
     #[derive(Clone, Debug, Default)]
     pub struct Expansion {
